@@ -1,6 +1,7 @@
 """Shared plumbing of the container checks (C03 C04 C09 C10 C11): run one exploration per
 configuration on the process pool, replay a witness history."""
 from .. import core, kdriver
+from .. import tdfref as R
 
 
 def long_comment_ops(cfg, model):
@@ -115,3 +116,85 @@ def replay_any(w, observe):
 
         return kdriver.replay_chain(w, observe, c07.call_fault)
     return replay(w, observe)
+
+
+# ----------------------------------------------------------------------------- files with a hole in the table
+def hole_layouts():
+    """Well-formed files as other software leaves them: an unused slot *between* live blocks (3 live
+    blocks, one of a kind the library cannot decode; hole before the first / second / third; 4 and 6 slots)."""
+    recs = [kdriver.known_record(R.T_EVENTS, 0), kdriver.opaque_record(1), kdriver.known_record(R.T_EMG, 1)]
+    for n in (4, 6):
+        for hole in (0, 1, 2):
+            yield n, recs, hole
+
+
+def hole_removal_shard(prop, judge):
+    """Every sequence of removals (all orders, all lengths) on every hole layout, in one write context.
+    The library refuses add / replace on such files (C07) but removes from them; after every removal
+    judge(ctx) -> [(clause, detail)] is evaluated.  ctx: n, records, removed (types so far), data (file
+    bytes), parsed (independent parse or None), tdf (the open object), path."""
+    import itertools
+    import os
+
+    from .. import env, specs
+
+    acc = core.Acc()
+    ns = specs.lib()
+    tmp = env.scratch_dir("holes")
+    path = os.path.join(tmp, "h.tdf")
+    for n, recs, hole in hole_layouts():
+        base = R.build_file(n, recs, hole_at=hole, junk=lambda k: bytes((i * 5 + 0x61) % 255 + 1 for i in range(k)))
+        kinds = [r["type"] for r in recs]
+        for k in (1, 2, 3):
+            for order in itertools.permutations(kinds, k):
+                with open(path, "wb") as f:
+                    f.write(base)
+                env.reset_clock()
+                tdf = ns.tdf.Tdf(path).allow_write()
+                wit = {"holes": True, "n": n, "hole": hole, "order": list(order)}
+                removed = []
+                try:
+                    with tdf as f:
+                        for t in order:
+                            acc.n["states"] += 1
+                            acc.n["evaluations"] += 1
+                            acc.n["nontrivial"] += 1
+                            acc.n["transitions"] += 1
+                            try:
+                                with env.time_limit(10):
+                                    f.remove_block(ns.block.BlockType(t))
+                            except Exception as e:  # noqa: BLE001
+                                acc.violation("valid-op-refused", f"{prop}:holes:valid-op-refused:{type(e).__name__}", wit,
+                                              f"{n} slots, hole before live block {hole}, removals {[R.NAMES.get(x, x) for x in removed]} then "
+                                              f"remove({R.NAMES.get(t, t)}): {type(e).__name__}: {e}")
+                                break
+                            removed.append(t)
+                            with open(path, "rb") as g:
+                                data = g.read()
+                            try:
+                                parsed = R.parse_file(data)
+                            except R.LayoutError:
+                                parsed = None
+                            ctx = dict(n=n, records=recs, removed=list(removed), data=data, parsed=parsed, tdf=f, path=path)
+                            bad = judge(ctx)
+                            if bad:
+                                clause, detail = bad[0]
+                                acc.violation(clause, f"{prop}:holes:{clause}", wit,
+                                              f"{n} slots, hole before live block {hole}, after removing {[R.NAMES.get(x, x) for x in removed]}: {detail}")
+                                break
+                            acc.outcomes["holes:removal:ok"] += 1
+                            acc.n["traces"] += 1
+                except core.Violation:
+                    raise
+                except Exception as e:  # noqa: BLE001
+                    acc.violation("context-exit-raises", f"{prop}:holes:context-raises:{type(e).__name__}", wit, f"{type(e).__name__}: {e}")
+    acc.sample({"hole files": "3 live blocks (one opaque), hole before the 1st / 2nd / 3rd, 4 and 6 slots; every sequence of 1-3 removals"}, 1)
+    return acc
+
+
+def hole_replay(w, prop, judge):
+    acc = hole_removal_shard(prop, judge)
+    for v in acc.violations:
+        if v["witness"] == w:
+            return core.Violation(v["clause"], v["sig"], w, v["detail"])
+    return None
